@@ -595,6 +595,23 @@ def random_polys(ctx, n, required=("rows>=3", "cols>=3", "nonunit_coef", "zero_c
     if missing: raise Machinery("random polyhedra did not reach regions %s" % missing)
     return out
 
+def narrow_storage_family(ctx):
+    """polyhedra stored as int8 / int16 whose entries fit, while coefficient x bound does not: rows that are NOT implied by the
+    box (and would look implied, or infeasible, after a wrap-around), alone and next to a second column"""
+    out, k = [], 0
+    for dt, his, coefs in (("int8", (30, 35, 40, 45, 60), (-3, -4, -5, -6, 3, 5)), ("int16", (300, 3000, 9000), (-120, -30, 150, -7))):
+        for hi in his:
+            for a in coefs:
+                if abs(a * hi) <= (127 if dt == "int8" else 32767): continue
+                for frac in (2, 3):
+                    b = (a * hi) // frac
+                    if abs(b) > (120 if dt == "int8" else 32000): continue
+                    out.append({"rows": [[b, a]], "bounds": [[0, hi]], "src": "family", "k": k, "dtype": dt}); k += 1
+                    out.append({"rows": [[b, a, 1], [0, 0, 1]], "bounds": [[0, hi], [0, 1]], "src": "family", "k": k, "dtype": dt}); k += 1
+                    out.append({"rows": [[b, a, -1], [-1, 0, -1]], "bounds": [[-hi // 2, hi // 2], [0, 1]], "src": "family", "k": k, "dtype": dt}); k += 1
+    ctx.region("narrow_storage_family", len(out))
+    return out
+
 def run_c11(ctx):
     q = ctx.tier == "quick"
     cases = poly_universe(ctx, ["ProjInv", "RowsImplied", "ColsForced", "FinalReduce"], "Poly_C11",
@@ -605,6 +622,7 @@ def run_c11(ctx):
     ctx.model_check("PuanPoly", {"NR": 2, "NC": 2, "Coefs": S(range(-1, 2) if q else range(-2, 3)), "Bs": S(range(-1, 2)), "BoundOpts": S([(0, 1), (-1, 1)])},
                     properties=["Terminates"], spec="FairSpec", name="Poly_C11_live")
     cases += random_polys(ctx, 1500 if q else 20000)
+    cases += narrow_storage_family(ctx)
     ctx.pmap(drivers.drv_poly_reduce, _stamp(cases, "drv_poly_reduce"))
     ctx.validate()
 
@@ -616,6 +634,7 @@ def run_c12(ctx):
     if not q:
         cases += poly_universe(ctx, ["TightSound", "RowBoundsExact"], "Poly_C12_3col", nr=1, nc=3, coefs=range(-3, 4), bs=range(-2, 3))
     cases += random_polys(ctx, 1500 if q else 20000)
+    cases += narrow_storage_family(ctx)
     # variable bounds taken from a narrow numpy table (int8 / int16) with wide ranges: counts and candidates exceed that type
     rng = ctx.rng
     for k in range(100 if q else 1000):
